@@ -40,6 +40,7 @@ GNext ==
   /\ \/ \E c \in Conns : Open(c) /\ Op([op |-> "Open", c |-> c])
      \/ \E c \in Conns : Close(c) /\ Len(sched) > 2 /\ Op([op |-> "Close", c |-> c])
      \/ \E c \in Conns : Flood(c)
+     \/ Mode = "chain" /\ issued < MaxIds /\ ClientRun /\ Op([op |-> "ClientRun"])
      \/ \E c \in Conns, m \in Methods, idr \in (-2 .. MaxIds), fl \in Flags : \E cls \in Classes(m) :
           /\ issued < MaxIds \/ m # "Start"
           /\ Allowed(m, idr, cls, fl)
